@@ -114,6 +114,8 @@ impl DQuat {
     /// Panics if `slice` length is less than 4.
     #[inline]
     pub fn write_to_slice(self, slice: &mut [f64]) {
+        // check the length once, before anything is written
+        let slice = &mut slice[..4];
         slice[0] = self.x;
         slice[1] = self.y;
         slice[2] = self.z;
